@@ -73,7 +73,8 @@ P["C11"] = dict(
              "out[perm[k]]=in[k]*m'[k] with the multiplier at the same index",
              "R-INDEX-SPACE: combine_descriptors indexes the source descriptor's multipliers by source positions",
              "R-UNITCONVERT-WIRING: fwd multiplies / inv divides elements 0,1 by xy_in*1/xy_out and element 2 by "
-             "z_in*1/z_out; the constructor stores the factor of the right unit name under each key"],
+             "z_in*1/z_out; the constructor stores the factor of the right unit name under each key",
+             "R-INDEX-VALIDATION: list parameters that become array indices are validated as such: axisswap bounds the magnitude of each axis number and tests integrality and zero; stack push/pop/flip indices must be members of a literal list of integral values within 1..4"],
     not_decided=["acceptance/rejection of descriptor words", "axisswap validation"],
     level="Decides the table clauses (every unit name resolves to its own factor; adaptor macros as documented).",
     design_ref="DESIGN.md section 3, C11",
@@ -205,7 +206,8 @@ P["C09"] = dict(
              "R-STR-SLICE: every byte-range slice of a str cuts at char boundaries (full range, find()/len() derived "
              "offsets, or a reviewed site)", "R-UNDERFLOW-GUARD: stack accesses are preceded by a depth test",
              "R-SLICE-INDEX-GUARD: in operator constructors a list-valued parameter is indexed only after a dominating test of its length that makes the index valid",
-             "R-BILINEAR/cell-range: the clamps of BaseGrid::at keep all four node indices inside the grid"],
+             "R-BILINEAR/cell-range: the clamps of BaseGrid::at keep all four node indices inside the grid",
+             "R-INDEX-VALIDATION: list parameters that become array indices are validated as such: axisswap bounds the magnitude of each axis number and tests integrality and zero; stack push/pop/flip indices must be members of a literal list of integral values within 1..4"],
     not_decided=["index arithmetic and slicing in general (455 clippy indexing sites; no bounds prover attempted)",
                  "arithmetic overflow", "stack depth in bytes"],
     level="Decides the named panic/hang mechanisms on all paths; does not decide absence of every possible panic.",
@@ -226,7 +228,8 @@ P["C12"] = dict(
              "R-UNDERFLOW-GUARD/exact: the depth tests are strict (`depth < demand` fails), a program needing exactly the available depth is not an underflow",
              "R-ARG-SELECTION: at every call of a crate function no argument is a caller variable named like another same-typed parameter of the callee (exchanged arguments of equal type, e.g. qs(e, sinphi), chase(&locals, globals, key))",
              "R-UNDERFLOW-GUARD/sub: a `depth - x` in a stack primitive is computed only after that very x has been tested against the depth",
-             "R-LOOP-CARRIED: the stack primitives keep no running state across the operands of a set (depth counters, iterators)"],
+             "R-LOOP-CARRIED: the stack primitives keep no running state across the operands of a set (depth counters, iterators)",
+             "R-INDEX-VALIDATION: list parameters that become array indices are validated as such: axisswap bounds the magnitude of each axis number and tests integrality and zero; stack push/pop/flip indices must be members of a literal list of integral values within 1..4"],
     not_decided=["abstract-machine equivalence of the primitives", "constructor-time numeric validation"],
     level="Decides that the dispatch tables are total and read the right keys; the machine semantics are only "
           "partially decided (see DESIGN.md).",
@@ -316,7 +319,8 @@ P["C19"] = dict(
              "R-SIGNUM-ZERO: no conversion takes the sign of a degree-minute-second sum from an integer signum()",
              "R-DEFAULT-RMW: default CoordinateSet::set_xy/set_xyz/set_xyzt write the given values to the leading elements and every other element as read from the same index",
              "R-SIGN-CARRIER: the ISO 6709 converters and parse_sexagesimal are of the form signum(x) * g(|x|): angles with zero whole degrees keep a negative sign",
-             "R-ANGLE-RANGE: normalize_symmetric / normalize_positive return input + 2 pi k inside the documented range (interval case analysis on the sign of the remainder)"],
+             "R-ANGLE-RANGE: normalize_symmetric / normalize_positive return input + 2 pi k inside the documented range (interval case analysis on the sign of the remainder)",
+             "R-ALL-DIMS: the default element-wise operations scale and dot range over 0..dim()"],
     not_decided=["numeric loss / rounding of the encodings", "normalisation ranges", "arithmetic operator impls"],
     level="Decides the structural clauses of container and encoding consistency; rounding behaviour is not decided.",
     design_ref="DESIGN.md section 3, C19",
@@ -397,7 +401,8 @@ P["C18"] = dict(
              "R-CONTEXT-OP-FRESH: every Ok(handle) returned by Context::op is preceded by Op::new and the insertion of the new operator (no handle of an older operator is handed out)",
              "R-REGISTRATION-FIRST: in Plain::get_resource the look-up among run-time registrations dominates every file read",
              "R-NAME-SIBLING: is_resource_name and the macro branch of Op::op agree on what a macro name is (contains a colon)",
-             "R-CACHE-KEY: the process-wide grid cache is read and written under the grid name as given, the same value the file is searched under"],
+             "R-CACHE-KEY: the process-wide grid cache is read and written under the grid name as given, the same value the file is searched under",
+             "R-SEARCH-ALL-PATHS: the loops over the search paths (resources, grids) are left early only by returning a result - a directory lacking the item does not end the search"],
     not_decided=["file based macro lookup semantics (get_resource string handling, fenced blocks)"],
     level="Decides immutability after instantiation, precedence of registrations and resolution order as structural / "
           "type-level facts valid for all histories and schedules; register file parsing is not decided.",
